@@ -138,17 +138,11 @@ Theorem C07_fdct_rounding_error : forall cf data, cfg_ok cf -> length data = 64%
 Proof. exact fdct_rounding_error_proof. Qed.
 Print Assumptions C07_fdct_rounding_error.
 
-(* constant accuracy: the integer matrix of the forward flow graph (sums of FIX_* constants) / 2^13 is within
-   1.5 / 8192 of sqrt(8) * dctA, for all 64 entries (Interval) *)
-Theorem C07_fdct_matrix_accuracy : forall k i, (k < 8)%nat -> (i < 8)%nat ->
-  (Rabs (IZR (Mz k i) / 8192 - sqrt 8 * dctA k i) <= 3 / 16384)%R.
-Proof. exact (fun k i Hk Hi => proj1 (matrix_accuracy_cases k i Hk Hi)). Qed.
-Print Assumptions C07_fdct_matrix_accuracy.
-
-(* e1 DISCHARGED: for every block of centred valid samples, jpeg_fdct_islow / 8 is within e1_bound cf (Euclidean norm
+(* e1 discharged up to ONE numeric fact, matrix_accuracy_fact = "each of the 64 entries of the integer flow-graph matrix
+   / 2^13 is within 3/16384 of sqrt 8 * dctA" (proved with Interval in proofs/DctAccInterval.v, coqc only): for every block of centred valid samples, jpeg_fdct_islow / 8 is within e1_bound cf (Euclidean norm
    over the 64 coefficients; e1_bound = rbound/2^26 + 64 * 2.815 * (3/16384) * CENTERJSAMPLE = 5.73 for 8-bit data,
    i.e. 0.72 sample levels RMS) of the exact real 2-D DCT *)
-Theorem C07_fdct_accuracy : forall cf data, cfg_ok cf -> length data = 64%nat ->
+Theorem C07_fdct_accuracy : matrix_accuracy_fact -> forall cf data, cfg_ok cf -> length data = 64%nat ->
   Forall (fun x => - centersample cf <= x <= centersample cf) data ->
   (norm2 64 (fun k => vecZ (fdct_islow cf data) k / 8 - ap 64 dctA2 (vecZ data) k) <= e1_bound cf * e1_bound cf)%R.
 Proof. exact fdct_accuracy_proof. Qed.
@@ -157,7 +151,7 @@ Print Assumptions C07_fdct_accuracy.
 (* the block bound with the compress side taken from the MODEL (valid samples, any table of non-zero UINT16 entries,
    convsamp + jpeg_fdct_islow + start_pass_fdctmgr + quantize): the only hypothesis left is e2, the distance of the
    reconstruction y from the exact inverse DCT of the dequantised coefficients *)
-Theorem C07_rms_bound_forward_partial : forall cf qtbl samples,
+Theorem C07_rms_bound_forward_partial : matrix_accuracy_fact -> forall cf qtbl samples,
   cfg_ok cf -> length qtbl = 64%nat -> length samples = 64%nat ->
   (forall q, In q qtbl -> 1 <= q <= 65535) ->
   Forall (fun s => 0 <= s <= maxsample cf) samples ->
